@@ -626,6 +626,11 @@ def tracesAff (mode : Mode) (M : Mat) (go ge : Int) (a b : Seq) (T : Nat → Nat
 
 def affLookup (tbl : List (List AffCell)) (i j : Nat) : AffCell := (tbl.getD i []).getD j ⟨none, none, none⟩
 
+/-- the trivial trace `[[0,0],[1,1],…]` that `align_ungapped` returns for two sequences of equal length -/
+def diagAln : Nat → Nat → Aln
+  | _, 0 => []
+  | k, n + 1 => .both k k :: diagAln (k + 1) n
+
 /-- The model of `align_optimal`: table fill, reported score read off the table, start selection, traceback and
 the final `[:max_number]` truncation.  Returns (reported score, returned alignments). -/
 def alignOptimalModel (mode : Mode) (gap : Gap) (M : Mat) (a b : Seq) (mx : Nat) : Int × List Aln :=
